@@ -19,7 +19,19 @@ class Missing:
 MISSING_MARK = Missing()
 
 
+LOCAL = {}  # classes declared inside harness modules: id(class) -> (attrs, props)
+
+
+def register(cls, attrs, props=()):
+    """make an ad-hoc harness class known to the snapshot / id walkers"""
+    LOCAL[cls] = (list(attrs), list(props))
+    return cls
+
+
 def spec_attrs(v):
+    for c in type(v).__mro__:
+        if c in LOCAL:
+            return LOCAL[c]
     for c in type(v).__mro__:
         if c.__name__ in ATTRS and hasattr(c, "__spec_class__"):
             return ATTRS[c.__name__], PROPS.get(c.__name__, [])
@@ -116,7 +128,7 @@ def mutable_ids(v, acc=None, depth=0):
         if id(v) in acc:
             return acc
         acc[id(v)] = v
-        for a in sa[0]:
+        for a in list(sa[0]) + list(sa[1]):  # managed attributes and cached derived values
             mutable_ids(read(v, a), acc, depth + 1)
         return acc
     if isinstance(v, dict):
